@@ -12,6 +12,21 @@
 
 using namespace vu;
 static vh::Run* R;
+static void vhCount(const char* k) { R->count(k); }
+// the same operations with their optional out-parameters supplied (half of the calls): the result must not depend on it
+static BDDBottomUpTreeAut unreachOpt(const BDDBottomUpTreeAut& a, bool out) { if (!out) return a.RemoveUnreachableStates(); AutBase::StateHT ht; ht.insert(123456); BDDBottomUpTreeAut r = a.RemoveUnreachableStates(&ht); vhCount("out-parameter:bu-unreach-reachable-set"); return r; }
+static BDDTopDownTreeAut unreachOpt(const BDDTopDownTreeAut& a, bool) { return a.RemoveUnreachableStates(); }
+template <class A> static A unionOpt(const A& x, const A& y, int mode)
+{
+	if (mode == 0) return A::Union(x, y);
+	AutBase::StateToStateMap ma, mb; vhCount("out-parameter:bdd-union-maps");
+	if (mode == 1) return A::Union(x, y, &ma, &mb);
+	if (mode == 2) return A::Union(x, y, &ma, nullptr);
+	return A::Union(x, y, nullptr, &mb);
+}
+template <class A> static A isectOpt(const A& x, const A& y, bool out) { if (!out) return A::Intersection(x, y); AutBase::ProductTranslMap pm; vhCount("out-parameter:bdd-isect-map"); return A::Intersection(x, y, &pm); }
+
+
 
 struct Obs { RTA a; std::set<St> states; };
 
@@ -113,7 +128,7 @@ static void step(History& h, Pool<A>& p, vh::Rng& g, Pool<BDDTopDownTreeAut>* td
 			case 1: if (room) { Handle<A> x; x.a.reset(new A(*p.v[i].a)); x.family = p.v[i].family; p.v.push_back(std::move(x)); p.focus = {i, p.v.size() - 1}; h.trace += e + ":copy" + vh::str(i) + ";"; R->count(e + ":copy"); } break;
 			case 2: { R->phase(e + " operator="); *p.v[i].a = *p.v[j].a; p.v[i].family = p.v[j].family; p.focus = {i, j}; h.trace += e + ":assign" + vh::str(i) + "<-" + vh::str(j) + ";";
 			          Obs ai = h.observe(*p.v[i].a); if (sameLang(bj.a, ai.a, h.al) == 0) fail(h, p, "assign/language", ""); } break;
-			case 3: case 4: if (room) { R->phase(e + " Union"); h.trace += e + ":union(" + vh::str(i) + "," + vh::str(j) + ");"; bin("union", A::Union(*p.v[i].a, *p.v[j].a), true); } break;
+			case 3: case 4: if (room) { R->phase(e + " Union"); h.trace += e + ":union(" + vh::str(i) + "," + vh::str(j) + ");"; bin("union", unionOpt<A>(*p.v[i].a, *p.v[j].a, static_cast<int>(g.below(6)) % 4 * (g.chance(1, 2) ? 1 : 0)), true); } break;
 			case 5: case 6: if (room)
 			{
 				// precondition: disjoint state sets w.r.t. the actual (possibly shared) table contents —
@@ -124,8 +139,8 @@ static void step(History& h, Pool<A>& p, vh::Rng& g, Pool<BDDTopDownTreeAut>* td
 				j = cands[g.below(cands.size())]; bj = h.observe(*p.v[j].a); related = p.v[i].family == p.v[j].family;
 				R->phase(e + " UnionDisjointStates"); h.trace += e + ":uniondisj(" + vh::str(i) + "," + vh::str(j) + ");"; bin("uniondisj", A::UnionDisjointStates(*p.v[i].a, *p.v[j].a), true);
 			} break;
-			case 7: if (room) { R->phase(e + " Intersection"); h.trace += e + ":isect(" + vh::str(i) + "," + vh::str(j) + ");"; bin("isect", A::Intersection(*p.v[i].a, *p.v[j].a), false); } break;
-			case 8: if (room) { R->phase(e + " RemoveUnreachableStates"); h.trace += e + ":unreach" + vh::str(i) + ";"; j = i; bj = bi; un("unreach", p.v[i].a->RemoveUnreachableStates(), false); } break;
+			case 7: if (room) { R->phase(e + " Intersection"); h.trace += e + ":isect(" + vh::str(i) + "," + vh::str(j) + ");"; bin("isect", isectOpt<A>(*p.v[i].a, *p.v[j].a, g.chance(1, 2)), false); } break;
+			case 8: if (room) { R->phase(e + " RemoveUnreachableStates"); h.trace += e + ":unreach" + vh::str(i) + ";"; j = i; bj = bi; un("unreach", unreachOpt(*p.v[i].a, g.chance(1, 2)), false); } break;
 			case 9: if (room) { R->phase(e + " RemoveUselessStates"); h.trace += e + ":useless" + vh::str(i) + ";"; j = i; bj = bi; un("useless", p.v[i].a->RemoveUselessStates(), true); } break;
 			case 10: if (g.chance(1, 2)) { p.v.erase(p.v.begin() + i); p.focus.clear(); h.trace += e + ":del" + vh::str(i) + ";"; } break;
 			case 12: if (p.v.size() + 2 <= 7)
@@ -202,7 +217,7 @@ static void caseC08(uint64_t, vh::Rng& g)
 // (the pair generators of the inclusion monitors: structured families with repeated child states,
 // unary cycles, many tuples per symbol — shapes the tiny automata of the histories rarely have)
 template <class A>
-static void pairOps(const char* enc, const Alpha& al, const RTA& a, const RTA& b, const std::string& text)
+static void pairOps(const char* enc, const Alpha& al, const RTA& a, const RTA& b, const std::string& text, vh::Rng& g)
 {
 	std::string k = std::string("C08/") + enc + "/pair";
 	try
@@ -212,13 +227,13 @@ static void pairOps(const char* enc, const Alpha& al, const RTA& a, const RTA& b
 		auto obs = [&](const A& x) { return fromDump(x.DumpToString(serializer()), ids); };
 		RTA x0 = obs(X), y0 = obs(Y);
 		if (rm::cmpLang(a, x0, al) > 0 || rm::cmpLang(b, y0, al) > 0) { R->violation(k + "/load/language", text); return; }
-		R->phase(std::string(enc) + " pair Intersection"); { RTA r = obs(A::Intersection(X, Y)); if (rm::checkBin(x0, y0, r, al, false) == 0) R->violation(k + "/isect/language", text); }
+		R->phase(std::string(enc) + " pair Intersection"); { RTA r = obs(isectOpt<A>(X, Y, g.chance(1, 2))); if (rm::checkBin(x0, y0, r, al, false) == 0) R->violation(k + "/isect/language", text); }
 		R->phase(std::string(enc) + " pair Intersection(swapped)"); { RTA r = obs(A::Intersection(Y, X)); if (rm::checkBin(x0, y0, r, al, false) == 0) R->violation(k + "/isect/language", text); }
-		R->phase(std::string(enc) + " pair Union"); { RTA r = obs(A::Union(X, Y)); if (rm::checkBin(x0, y0, r, al, true) == 0) R->violation(k + "/union/language", text); }
+		R->phase(std::string(enc) + " pair Union"); { RTA r = obs(unionOpt<A>(X, Y, static_cast<int>(g.below(4)))); if (rm::checkBin(x0, y0, r, al, true) == 0) R->violation(k + "/union/language", text); }
 		R->phase(std::string(enc) + " pair UnionDisjointStates"); { RTA r = obs(A::UnionDisjointStates(X, Y)); if (rm::checkBin(x0, y0, r, al, true) == 0) R->violation(k + "/uniondisj/language", text); }
 		R->phase(std::string(enc) + " pair RemoveUselessStates");
 		{ RTA r = obs(Y.RemoveUselessStates()); if (rm::cmpLang(y0, r, al) > 0) R->violation(k + "/useless/language", text); std::set<St> u = rm::useful(r); for (St s : r.states()) if (!u.count(s)) { R->violation(k + "/useless/dead-state", text); break; } }
-		R->phase(std::string(enc) + " pair RemoveUnreachableStates"); { RTA r = obs(Y.RemoveUnreachableStates()); if (rm::cmpLang(y0, r, al) > 0) R->violation(k + "/unreach/language", text); }
+		R->phase(std::string(enc) + " pair RemoveUnreachableStates"); { RTA r = obs(unreachOpt(Y, g.chance(1, 2))); if (rm::cmpLang(y0, r, al) > 0) R->violation(k + "/unreach/language", text); }
 		if (obs(X) != x0 || obs(Y) != y0) R->violation(k + "/operand-changed", text);
 		R->count(std::string(enc) + ":pair-cases");
 	}
@@ -230,7 +245,7 @@ static void caseC08pair(vh::Rng& g)
 	Alpha al; RTA a, b; std::string kind; gen::genPair(g, 5, 9, al, a, b, kind, true);
 	if (a.states().size() > 8 || b.states().size() > 8) { R->count("pair-skipped-large"); return; }
 	std::string text = rm::toTimbuk(a, al, "A", "p") + rm::toTimbuk(b, al, "B", "r"); R->desc(text); R->count("pair:" + kind);
-	pairOps<BDDBottomUpTreeAut>("bu", al, a, b, text); pairOps<BDDTopDownTreeAut>("td", al, a, b, text);
+	pairOps<BDDBottomUpTreeAut>("bu", al, a, b, text, g); pairOps<BDDTopDownTreeAut>("td", al, a, b, text, g);
 	{	// bottom-up -> top-down conversion keeps the language
 		try { SharedDict sd; BDDBottomUpTreeAut X; X.LoadFromString(parser(), rm::toTimbuk(b, al, "B", "r"), sd.tr); std::map<std::string, St> ids; RTA t = fromDump(X.GetTopDownAut().DumpToString(serializer()), ids); if (rm::cmpLang(b, t, al) > 0) R->violation("C08/bu/pair/totopdown/language", text); }
 		catch (std::exception& e) { R->violation("C08/bu/pair/totopdown/exception", e.what()); }
